@@ -21,10 +21,10 @@ type entry struct {
 }
 
 type model struct {
-	frames  int
-	e       [3]entry
-	cap     uint32
-	use     int
+	frames int
+	e      [3]entry
+	cap    uint32
+	use    int
 }
 
 // arbitrary builds a cache in an arbitrary state satisfying the
@@ -251,7 +251,37 @@ func Seq(v *vrt.Ctx) {
 	v.Cover("C09/seq-done")
 }
 
+// ResetPush: a scope is opened, a symbol of any length is added in it, then
+// the cache is reset (or the scope popped) and a scope opened again: the new
+// scope is empty - nothing of the released one comes back - and the
+// invariant holds after every step. (A history of four operations; the
+// three-operation bound of Seq does not reach it.)
+func ResetPush(v *vrt.Ctx) {
+	ca := cache.NewCache()
+	ca = ca.WithCacheSize(v.U32("capacity"))
+	v.Assume(ca.Push() == nil)
+	val := v.Opaque("len", 'a', 1, maxLen)
+	v.Finding("F3-length-over-65535", len(val) > 65535)
+	v.Assume(ca.Add(keys[0], val, v.U16("limit")) == nil)
+	invariant(v, ca, "-resetpush")
+	if v.Choice("release-by", 2) == 0 {
+		ca.Reset()
+	} else {
+		v.Assume(ca.Pop() == nil)
+	}
+	invariant(v, ca, "-resetpush")
+	v.Assert(ca.CacheUseSize == 0, "C09/released-scope-gives-its-bytes-back")
+	v.Assume(ca.Push() == nil)
+	invariant(v, ca, "-resetpush")
+	_, err := ca.Get(keys[0])
+	v.Assert(err != nil, "C09/released-symbol-does-not-come-back")
+	v.Assert(ca.CacheUseSize == 0, "C09/released-scope-gives-its-bytes-back")
+	v.Assert(ca.Add(keys[0], "x", 0) == nil, "C09/released-symbol-does-not-come-back")
+	v.Cover("C09/resetpush")
+}
+
 var Harnesses = map[string]func(*vrt.Ctx){
-	"Step": Step,
-	"Seq":  Seq,
+	"ResetPush": ResetPush,
+	"Step":      Step,
+	"Seq":       Seq,
 }
